@@ -8,6 +8,7 @@ C17 — line-protocol driver of the model (core only).  One op per line, one ans
   mksnap <i> <vnil> <conf> <data>       CreateSnapshot
   delbefore <i>                         DeleteBefore
   reopen                                Close + Init on the same directory
+  crashrotate                           Init on the image of a crash inside `rotate` (correspondence only)
   first | last | term <i> | ents <lo> <hi> <max> | snap | hs | files
 -/
 import OG.C17.Model
@@ -140,6 +141,15 @@ def step (p : Params) (s : State) (line : String) : State × String :=
     match reopen p s with
     | .ok s' => (s', "ok")
     | .error e => (s, "err " ++ errName e)
+  | ["crashrotate"] =>
+    -- the process died inside `rotate`: current file truncated, next file created and empty
+    if s.next == 0 then (s, "bad-op")
+    else
+      let e := getSlot s.current (s.next - 1)
+      let off := e.off + sliceSize p s.current e.off
+      match reopen p { rotate p s off with next := 0 } with
+      | .ok s' => (s', "ok")
+      | .error e => (s, "err " ++ errName e)
   | ["first"] => (s, s!"ok {firstIndex s}")
   | ["last"] => (s, s!"ok {lastIndex p s}")
   | ["term", i] =>
